@@ -5,6 +5,7 @@ import inspect
 
 from ..cfg import cfg_of
 from ..core import (
+    cond_facts,
     attrs_in, ancestors, assigns_to, body_walk, call_attr, call_name, calls_in, const_value, dotted, enclosing_stmt, handler_catches,
     in_block, is_const, kwarg, nodes_of_type, parent, stores_to, unparse, walk_local, names_in,
 )
@@ -274,6 +275,26 @@ def vocab(ctx):
     lu = ctx.repo.func(MR, "_log_and_unlink")
     c = [c for c in calls_in(lu) if call_attr(c) == "maybe_unlink"]
     ctx.check(bool(c) and dotted(c[0].args[0]) == "filename" and const_value(c[0].args[1]) == "file", c[0] if c else lu, "the memmap finalizer decrements the file's count")
+    am = ctx.repo.func(MR, "add_maybe_unlink_finalizer")
+    fz = [x for x in calls_in(am) if call_name(x) == "weakref.finalize"]
+    arg = am.args.args[0].arg
+    ctx.check(len(fz) == 1 and len(fz[0].args) == 3 and dotted(fz[0].args[0]) == arg and dotted(fz[0].args[1]) == "_log_and_unlink" and dotted(fz[0].args[2]) == arg + ".filename", fz[0] if fz else am,
+              "add_maybe_unlink_finalizer ties _log_and_unlink(<the memmap's file>) to the death of the memmap", "add_maybe_unlink_finalizer does not register _log_and_unlink on the memmap: the worker-side reference is never given back and the file outlives its last user")
+    # unlink_file: deletes, retries a bounded number of times on PermissionError, re-raises at the last attempt
+    g = cfg_of(uf)
+    ul = [x for x in calls_in(uf) if call_name(x) in ("os.unlink", "os.remove")]
+    ctx.check(bool(ul) and dotted(ul[0].args[0]) == uf.args.args[0].arg, ul[0] if ul else uf, "unlink_file removes the file it is given", "unlink_file no longer removes the file")
+    lps = [l for l in nodes_of_type(uf, (ast.For, ast.While))]
+    if lps:
+        lp = lps[0]
+        ctx.check(isinstance(lp, ast.For) and isinstance(lp.iter, ast.Call) and call_name(lp.iter) == "range", lp, "the retry loop is a bounded range loop", "the retry loop of unlink_file is not bounded by a range")
+        ph = [h for t in nodes_of_type(uf, ast.Try) for h in t.handlers if h.type is not None and "PermissionError" in unparse(h.type)]
+        for h in ph:
+            rs = [r for st_ in h.body for r in walk_local(st_) if isinstance(r, ast.Raise)]
+            ctx.check(bool(rs), h, "a PermissionError that persists is re-raised (reported by the tracker, not swallowed)", "unlink_file swallows a persistent PermissionError: the file silently stays")
+            for r in rs:
+                facts = cond_facts([c_ for c_ in g.conditions_at(g.nodes_of(r)) if in_block(c_[0], h.body)])
+                ctx.check(facts in ([("retry_no == NUM_RETRIES", True)], [("NUM_RETRIES == retry_no", True)], [("NUM_RETRIES <= retry_no", True)]), r, "re-raised at the last attempt only", "the PermissionError is re-raised under %s" % facts)
 
 
 def client_pairing(ctx):
@@ -359,6 +380,70 @@ def client_pairing(ctx):
     ctx.check(bool(ad) and inm and gf.every_path_to(gf.nodes_of(ad[0]), gf.nodes_of(inm[0])), ad[0] if ad else fw, "and is remembered afterwards")
 
 
+def contexts(ctx):
+    """TemporaryResourcesManager: every context that gets a folder name gets it registered (tracker + atexit) and
+    remembered; a clean-up without context id cleans every remembered context; a folder is listed only when it exists."""
+    cls_q = "TemporaryResourcesManager"
+    sc = ctx.repo.func(MR, cls_q + ".set_current_context")
+    c = [x for x in calls_in(sc) if call_name(x) == "self.register_new_context"]
+    ctx.check(bool(c) and dotted(c[0].args[0]) == sc.args.args[1].arg, c[0] if c else sc, "activating a context registers it (folder name, tracker, atexit) if it is new", "set_current_context no longer registers the context it activates")
+    init = ctx.repo.func(MR, cls_q + ".__init__")
+    c = [x for x in calls_in(init) if call_name(x) == "self.set_current_context"]
+    ctx.check(bool(c), c[0] if c else init, "a manager starts with an active, registered context")
+    rc = ctx.repo.func(MR, cls_q + ".register_new_context")
+    g = cfg_of(rc)
+    arg = rc.args.args[1].arg
+    fin = [x for x in calls_in(rc) if call_name(x) == "self.register_folder_finalizer"]
+    rec = [a for a in ast.walk(rc) if isinstance(a, ast.Assign) and isinstance(a.targets[0], ast.Subscript) and dotted(a.targets[0].value) == "self._cached_temp_folders" and dotted(a.targets[0].slice) == arg]
+    ok = bool(fin) and bool(rec) and dotted(fin[0].args[1]) == arg and dotted(fin[0].args[0]) == dotted(rec[0].value)
+    ctx.check(ok, fin[0] if fin else rc, "a new context's folder is registered for clean-up and remembered under the context id (same path)", "register_new_context does not both register the folder finalizer and remember the folder of the context")
+    for r in nodes_of_type(rc, ast.Return):
+        fc = cond_facts(g.conditions_at(g.nodes_of(r)))
+        ctx.check(fc == [("%s in self._cached_temp_folders" % arg, True)], r, "registration is skipped exactly for a context that already has a folder", "register_new_context returns early under %s" % fc)
+    for x in fin + rec:
+        fc = cond_facts(g.conditions_at(g.nodes_of(x)))
+        ctx.check(fc == [("%s in self._cached_temp_folders" % arg, False)], x, "and performed for every other context", "registration of a new context happens under %s" % fc)
+    ct = ctx.repo.func(MR, cls_q + "._clean_temporary_resources")
+    gc_ = cfg_of(ct)
+    carg = ct.args.args[1].arg
+    rec_ = [x for x in calls_in(ct) if call_name(x) == "self._clean_temporary_resources"]
+    loops = [l for l in nodes_of_type(ct, ast.For) if "self._cached_temp_folders" in unparse(l.iter)]
+    ok = bool(rec_) and bool(loops) and any(in_block(rec_[0], l.body) for l in loops) and unparse(loops[0].iter) in ("list(self._cached_temp_folders)", "list(self._cached_temp_folders.keys())", "tuple(self._cached_temp_folders)")
+    ctx.check(ok, rec_[0] if rec_ else ct, "without a context id every remembered context is cleaned (iterating over a copy)", "a clean-up without context id no longer visits every remembered context")
+    if rec_:
+        fc = cond_facts([c_ for c_ in gc_.conditions_at(gc_.nodes_of(rec_[0]))])
+        ctx.check(("%s is None" % carg, True) in fc, rec_[0], "exactly when no context id was given", "the all-contexts branch is taken under %s" % fc)
+        kws = {k.arg: dotted(k.value) for k in rec_[0].keywords}
+        ctx.check(kws.get("force") == "force" and kws.get("allow_non_empty") == "allow_non_empty", rec_[0], "force / allow_non_empty are passed down unchanged")
+    ld = [x for x in calls_in(ct) if call_name(x) == "os.listdir"]
+    for x in ld:
+        fc = cond_facts(gc_.conditions_at(gc_.nodes_of(x)))
+        ctx.check(("os.path.exists(temp_folder)", True) in fc and ("temp_folder", True) in fc, x, "a context's folder is listed only if it was created", "the folder is listed under %s" % fc)
+    an = [a for a in nodes_of_type(ct, ast.AugAssign) if dotted(a.target) == "allow_non_empty"]
+    de = [x for x in calls_in(ct) if call_name(x) == "delete_folder"]
+    ok = bool(an) and isinstance(an[0].op, ast.BitOr) and dotted(an[0].value) == "force" and bool(de) and gc_.every_path_to(gc_.nodes_of(de[0]), gc_.nodes_of(an[0]))
+    ctx.check(ok, an[0] if an else ct, "a forced clean-up deletes the folder even if files remain (workers are gone, counts may be off)", "force no longer implies allow_non_empty before delete_folder: after a worker crash the folder is left to the tracker's final clean-up")
+    au = [x for x in calls_in(ct) if call_name(x) == "atexit.unregister"]
+    for x in au:
+        fc = cond_facts([c_ for c_ in gc_.conditions_at(gc_.nodes_of(x)) if "finalizer" in unparse(c_[1])])
+        ctx.check(fc == [("finalizer is not None", True)] or fc == [("finalizer is None", False)], x, "the atexit hook is removed when there is one", "atexit.unregister is reached under %s" % fc)
+    # the reducer creates the folder lazily; a folder created meanwhile by a sibling is fine
+    fw = ctx.repo.func(MR, "ArrayMemmapForwardReducer.__call__")
+    gf = cfg_of(fw)
+    mk = [x for x in calls_in(fw) if call_name(x) == "os.makedirs"]
+    dmp = [x for x in calls_in(fw) if call_name(x) == "dump"]
+    ctx.check(bool(mk) and dotted(mk[0].args[0]) == "self._temp_folder" and bool(dmp) and all(gf.every_path_to(gf.nodes_of(d_), gf.nodes_of_all(mk)) for d_ in dmp), mk[0] if mk else fw,
+              "the temporary folder is created before an array is dumped into it", "the reducer dumps arrays without having created its temporary folder")
+    for x in mk:
+        tr = [a for a in ancestors(x) if isinstance(a, ast.Try) and in_block(x, a.body)]
+        hs = [h for h in (tr[0].handlers if tr else []) if handler_catches(h, ["OSError"])]
+        ok = False
+        for h in hs:
+            rs = [r for st_ in h.body for r in walk_local(st_) if isinstance(r, ast.Raise)]
+            ok = bool(rs) and all(cond_facts([c_ for c_ in gf.conditions_at(gf.nodes_of(r)) if in_block(c_[0], h.body)]) in ([("e.errno != errno.EEXIST", True)], [("e.errno == errno.EEXIST", False)]) for r in rs)
+        ctx.check(ok, x, "creating the temporary folder tolerates EEXIST and nothing else", "the folder creation of the reducer does not re-raise exactly the errors other than EEXIST (a second dispatch fails, or real errors are hidden)")
+
+
 def run(ctx):
     ctx.run("C20.UNLINK-AT-ZERO", "R-ORDER", unlink_at_zero)
     ctx.run("C20.ONLY-REGISTERED", "R-ORDER", only_registered)
@@ -367,3 +452,4 @@ def run(ctx):
     ctx.run("C20.FINAL", "R-ORDER", final)
     ctx.run("C20.VOCAB", "R-TABLE", vocab)
     ctx.run("C20.CLIENT-PAIRING", "R-ORDER", client_pairing)
+    ctx.run("C20.CONTEXTS", "R-ORDER", contexts)
